@@ -118,7 +118,8 @@ def design(ctx):
 
 
 def export_behaviours(ctx):
-    """TLC simulates the contract; every behaviour becomes a script for the real classes."""
+    """TLC simulates the contract; every behaviour becomes a script for the real classes.  (TLC evaluates the Export invariant on every
+    successor it generates at the last level, so one simulated walk yields a few hundred behaviours that differ in their last call.)"""
     q = ctx.quick
     depth = 12 if q else 20
     cap = 60 if q else 600           # behaviours kept per machine
@@ -127,7 +128,7 @@ def export_behaviours(ctx):
 
     def one(g):
         cfg = mc_cfg(ctx, "sim_" + g[0], g, 1000, export=depth, check=False)
-        r = vlib.run_tlc(ctx, MC, cfg, workers=1, timeout=900, heap="2g", tag="sim_" + g[0], simulate=(1500 if q else 8000) * len(g), depth=depth + 1, seed=ctx.seed + 17)
+        r = vlib.run_tlc(ctx, MC, cfg, workers=1, timeout=900, heap="2g", tag="sim_" + g[0], simulate=(80 if q else 300) * len(g), depth=depth + 1, seed=ctx.seed + 17)
         return g, r
     allb = []
     with concurrent.futures.ThreadPoolExecutor(max_workers=3) as ex:
@@ -316,7 +317,7 @@ def run(ctx):
                 fn()
             except BaseException as e:      # re-raised in the main thread
                 err[name] = e
-        t = threading.Thread(target=w)
+        t = threading.Thread(target=w, daemon=True)
         t.start()
         return t
     th_design = bg("design", lambda: design(ctx))
